@@ -37,14 +37,14 @@ CHECKS = {
         "4/C05",
     ),
     "C06": (
-        "runtime monitor: crash/hang/abort observer around hostile inputs (all prefixes, token mutations, random Unicode, zeros in every number slot, include graphs, deep nesting) in sacrificial workers with a per-case CPU limit, plus black-box CLI runs",
+        "runtime monitor: crash/hang/abort observer around hostile inputs (all prefixes, token mutations, random Unicode, zeros in every number slot, include graphs, deep nesting, price graphs with many ties, inputs of several MB) in sacrificial workers with a per-case CPU limit, plus black-box CLI runs",
         "Every operation named by the property (parse, format, load, process, balance/-X/ranges, register, accounts, eval; in-process and through the real binary) is run on ~10^6 (quick) / 5*10^7 (thorough) hostile inputs with integer-overflow and debug-assert traps on; any panic, abort, stack overflow, signal or CPU-limit hit is a violation with the input as witness.",
-        "Hang = 20 CPU-seconds on an input <= 64 KiB; decimal-range overflows (rust_decimal's own overflow panics) are outside the statement's proviso and are counted, not reported. Open known findings: stack overflow on ~10^4 nested parentheses.",
+        "Hang = 10 CPU-seconds on one input (inputs are <= 64 KiB except the large-input family: ledgers of 40 000-120 000 transactions, 70 000-character tokens, a 100 000-term expression, a 200 000-line price database); decimal-range overflows (rust_decimal's own overflow panics) are outside the statement's proviso and are counted, not reported. Open known findings: stack overflow on ~10^4 nested parentheses and on a 100 000-term expression.",
         "4/C06",
     ),
     "C07": (
         "runtime monitor: exhaustive short strings + random long literals through the real scanner/printer, judged by an independent recogniser; okane format echo",
-        "Every string over {0,1,5,9,',','.','-'} up to length 8 (quick) / 10 (thorough) and over the full 13-symbol alphabet up to 6 / 7, plus random near-valid literals up to 45 digits (one in five within a few units of 2^31 ... 2^128, 10^18, 10^28, 10^29) and literals embedded in every syntactic position, are pushed through PrettyDecimal::from_str/to_string, the ledger parser and `okane format`; an independent recogniser with exact (mantissa, scale) decides accept/reject/value. Exhaustive below the stated lengths, sampled above.",
+        "Every string over {0,1,5,9,',','.','-'} up to length 7 (quick) / 9 (thorough) and over the full 13-symbol alphabet up to 5 / 6, plus random near-valid literals up to 45 digits (one in five within a few units of 2^31 ... 2^128, 10^18, 10^28, 10^29) and literals embedded in every syntactic position (parsed in 8, printed by the formatter in 13), are pushed through PrettyDecimal::from_str/to_string, the ledger parser and `okane format`; an independent recogniser with exact (mantissa, scale) decides accept/reject/value. Exhaustive below the stated lengths, sampled above.",
         "Trusted: the recogniser in harness/src/model/num.rs (60 lines, unit-tested); representable = 96-bit mantissa and <= 28 decimals; `.5`-style literals are unspecified.",
         "4/C07",
     ),
